@@ -1,6 +1,7 @@
 //! S3 helper: `ToHtml`, `Html`, `HtmlBuffer`, `to_buffer` of the *library* copy of utils.rs
 //! against scheduled sinks and chunking Display values.
 //! case:   <wrapper D|H|B|HB|BB|FB> <pieces hex,hex,..|-> <schedule tokens aN|i|fN|wN,..|->
+//!         a trailing c (Dc, Hc, ..): the Display impl hands its text over char by char through Formatter::write_char
 //!         FB = B on a thread where a to_buffer() of a failing ToHtml value came just before; wN = fails with WouldBlock
 //! result: <hex of accepted bytes> <ok|wz|ioN|other:..> [<hex buffer> <eq flags>]
 use crate::{hex, unhex};
@@ -8,11 +9,19 @@ use ructe::templates::{Html, ToHtml};
 use std::fmt;
 use std::io::{self, BufRead, Write};
 
-struct Pieces(Vec<String>);
+struct Pieces(Vec<String>, bool);
 impl fmt::Display for Pieces {
     fn fmt(&self, f: &mut fmt::Formatter) -> fmt::Result {
+        use fmt::Write as _;
         for p in &self.0 {
-            f.write_str(p)?;
+            if self.1 {
+                // the way `char`, `{:?}` of a str (its quotes) and padding reach the formatter
+                for c in p.chars() {
+                    f.write_char(c)?;
+                }
+            } else {
+                f.write_str(p)?;
+            }
         }
         Ok(())
     }
@@ -95,8 +104,9 @@ pub fn run() {
                 });
             }
         }
-        let v = Pieces(pieces);
-        let r = std::panic::catch_unwind(std::panic::AssertUnwindSafe(|| match f[0] {
+        let by_char = f[0].ends_with('c');
+        let v = Pieces(pieces, by_char);
+        let r = std::panic::catch_unwind(std::panic::AssertUnwindSafe(|| match f[0].trim_end_matches('c') {
             "D" => (v.to_html(&mut sink), None),
             "H" => (Html(&v).to_html(&mut sink), None),
             "B" => {
